@@ -297,6 +297,20 @@ mod tests {
     }
 
     #[test]
+    fn named_spaces_are_inside_the_domain() {
+        // every named white point x named primaries combination the format can express
+        for wp in [WP_D65, WP_E, WP_DCI] {
+            for pr in [PRIM_SRGB, PRIM_BT2100, PRIM_P3] {
+                let r = icc_matrix_resolution(wp, Some(pr)).unwrap();
+                println!("{wp:?} {:?}: {r:?}", pr[0]);
+                assert!(r.white_point.max(r.primaries) < 4.0e-5, "{wp:?} {pr:?} {r:?}");
+            }
+            let r = icc_matrix_resolution(wp, None).unwrap();
+            assert!(r.white_point < 1.0e-5, "{r:?}");
+        }
+    }
+
+    #[test]
     fn srgb_resolution_is_fine() {
         let r = icc_matrix_resolution(WP_D65, Some(PRIM_SRGB)).unwrap();
         assert!(r.white_point < 5e-5 && r.primaries < 5e-5, "{r:?}");
